@@ -60,6 +60,7 @@ class CompilerProcess:
         self.fs = SimFS.from_image(plan["fs"])
         self.tw = Tripwires()
         self.tw.install()
+        self.fs.clock = lambda: self.tw.now
         self.clock = StepClock()
         self.sessions = {}
         self.history = []
